@@ -69,6 +69,7 @@ class UnitResult:
         self.cmd = None
         self.wall = 0.0
         self.raw = ""
+        self.rlimit_retry = False
 
     def to_dict(self):
         return {k: v for k, v in self.__dict__.items() if k != "raw"}
@@ -166,7 +167,7 @@ def map_failure(d, meta, gen_lines, gen_name):
     fn = None
     label = None
     # 1. label: any span line range that carries a [label] comment
-    for s in prim + spans:
+    for s in prim + [x for x in spans if not x.get("is_primary") and x["line_end"] - x["line_start"] <= 1]:
         for ln in range(s["line_start"], s["line_end"] + 1):
             if 1 <= ln <= len(gen_lines):
                 m = LABEL_RE.search(gen_lines[ln - 1])
@@ -323,6 +324,14 @@ def run_unit(unit, repo=REPO, tier="quick", probe=True, rlimit=None, keep_log=Tr
         with open(out, "w") as f:
             f.write("\n".join(gen_lines))
         r = run_verus(out, logdir=logdir, rlimit=rl)
+    # A resource-limit hit decides nothing.  Retry once with a much larger limit: a failing proof
+    # often wanders until the limit, and the retry turns "rlimit" into the named obligation that
+    # fails (or into a pass); if the limit is hit again the unit stays UNDECIDED.
+    if any(is_rlimit(d) for d in r["diags"] if d.get("level") == "error") and not rlimit:
+        r2 = run_verus(out, logdir=logdir, rlimit=(rl or 10) * 8)
+        if r2["json"] is not None:
+            res.rlimit_retry = True
+            r = r2
     res.cmd = r["cmd"]
     js = r["json"]
     if js is None:
